@@ -39,7 +39,10 @@ RULE = ("grammars: (a) generator biased to LL(1) (distinct leading terminals, at
         "tokenizer of llp_common, where SPACE is skipped by default and never a terminal, so that skip_tokens cannot matter): a random "
         "configuration in the pattern language of coq/C04/Model.v -- white space as group SPACE / WS renamed to SPACE by synonyms / WS "
         "not renamed, end-of-line comments as COMMENT / REM renamed to COMMENT / REM / none, WORD, NUM, one-character literals (some "
-        "renamed to themselves), optionally the keyword (WORD, if) -> IF -- and a skip_tokens argument whose MEANING is: None (20%), "
+        "renamed to themselves), optionally the keyword (WORD, if) -> IF; in half of the configurations the names of pattern groups, "
+        "synonym targets and keyword tokens OVERLAP (words from groups LW / UW renamed to WORD with keywords keyed by the synonym target "
+        "WORD and decoy entries keyed by the renamed group; a keyword token named like the renamed group; the synonym chain "
+        "CAP -> NUM, NUM -> INT, which is applied once) and the grammar uses such names -- and a skip_tokens argument whose MEANING is: None (20%), "
         "an EMPTY collection = skip nothing (30%), the white-space class, the comment class, the default spelled out, ANOTHER class "
         "only (blanks and comments stay), white space + another class; PASSED as omitted / None / list / set / tuple / frozenset; "
         "synonyms / keywords / span_matchers omitted, None or a dict ({} when there are none), keep_symbols omitted / None / set() / [], "
@@ -596,17 +599,56 @@ def gen_tokcfg(rng):
         free.append(dn)
         for v in ["", "x y", "if"] + [_C01._odd_core(rng, True) + _C01._odd_trail(rng) for _ in range(rng.randint(2, 4))]:
             add(dn, '"' + v + '"', v)
-    lex += [["WORD", "range", "az"], ["NUM", "range", "09"]]
-    words = ["a", "bc", "x", "zz"]
-    if rng.random() < 0.45:
+    # words and numbers.  Round 5: the name spaces of pattern groups, synonym targets and keyword tokens OVERLAP.
+    # Synonyms rename a pattern group ONCE (no chains are followed), keywords are looked up under the token name AFTER the
+    # renaming, and the terminals are (groups - renamed groups) + synonym targets + keyword tokens:
+    #   wmode "ren"/"two": words come from group LW (and UW) renamed to WORD; keywords are keyed by the synonym TARGET
+    #                ('WORD', 'if') and fire; an entry keyed by the renamed GROUP ('LW', 'zz') is a decoy and never fires;
+    #   "kwgroup":   a keyword token is NAMED like the renamed group ('WORD', 'x') -> 'LW': LW is a terminal again;
+    #   nmode "chain": {'CAP': 'NUM', 'NUM': 'INT'}: capitals are NUM tokens, digits are INT tokens, NUM stays a terminal.
+    hot = []          # names that are a renamed group AND a token the tokenizer emits: the grammar should use them
+    wmode = rng.choice(["plain", "plain", "plain", "ren", "ren", "two"])
+    nmode = "chain" if wmode != "two" and rng.random() < 0.3 else "plain"
+    wg = "WORD" if wmode == "plain" else "LW"
+    lex.append([wg, "range", "az"])
+    if wg != "WORD":
+        syn.append([wg, "WORD"])
+    words, wkw = ["a", "bc", "x", "zz", "if"], {}
+    if rng.random() < (0.45 if wmode == "plain" else 0.8):
         kw.append(["WORD", "if", "IF"])
-        add("IF", "if")
-    else:
-        words.append("if")
+        wkw["if"] = "IF"
+    if wg != "WORD":
+        if rng.random() < 0.4:
+            kw.append([wg, "zz", "ZZK"])                    # decoy: 'zz' stays a WORD ('ZZK' is a terminal nothing produces)
+        if rng.random() < 0.35:
+            kw.append(["WORD", "x", wg])
+            wkw["x"] = wg
+            hot.append(wg)
     for v in words:
-        add("WORD", v)
-    for v in ("0", "12", "7"):
-        add("NUM", v)
+        add(wkw.get(v, "WORD"), v)
+    if wmode == "two":
+        lex.append(["UW", "range", "AZ"])
+        syn.append(["UW", "WORD"])
+        if rng.random() < 0.5:
+            kw.append(["WORD", "IF", "IF"])
+        for v in ("A", "XY", "IF"):
+            add("IF" if v == "IF" and ["WORD", "IF", "IF"] in kw else "WORD", v)
+    if nmode == "chain":
+        lex += [["CAP", "range", "AZ"], ["NUM", "range", "09"]]
+        syn += [["CAP", "NUM"], ["NUM", "INT"]]
+        hot.append("NUM")
+        for v in ("A", "XY", "IF"):
+            add("NUM", v)
+        if rng.random() < 0.4:
+            kw.append(["NUM", "7", "SEVEN"])                # decoy: digits are INT tokens when the keywords are looked up
+        if rng.random() < 0.4:
+            kw.append(["INT", "0", "NUM"])                  # ... and this one fires: the digit 0 is a NUM token
+        for v in ("0", "12", "7"):
+            add("NUM" if v == "0" and ["INT", "0", "NUM"] in kw else "INT", v)
+    else:
+        lex.append(["NUM", "range", "09"])
+        for v in ("0", "12", "7"):
+            add("NUM", v)
     for g, ch in (("COMMA", ","), ("SEMI", ";"), ("PLUS", "+")):
         if rng.random() < 0.7:
             lex.append([g, "lit", ch])
@@ -642,7 +684,7 @@ def gen_tokcfg(rng):
     tk["spans_form"] = rng.choice(["omitted", "none", "dict"])
     tk["keep_form"] = rng.choice(["omitted", "none", "set", "list"])
     tk["start_kw"] = True
-    info = {"prod": prod, "space": space, "comment": comment, "skipset": _tok_skipset(tk), "free": free}
+    info = {"prod": prod, "space": space, "comment": comment, "skipset": _tok_skipset(tk), "free": free, "hot": hot}
     return tk, info
 
 
@@ -705,6 +747,10 @@ def _tok_grammar(rng, info):
         rng.shuffle(rest)
         rng.shuffle(pref)
         pool = (pref + rest) if rng.random() < 0.8 else (rest + pref)
+        hotp = [n for n in info.get("hot", []) if n in avail]
+        if hotp and rng.random() < 0.85:
+            # names that are a renamed pattern group AND an emitted token: terminals the grammar must be allowed to use
+            pool = hotp + [n for n in pool if n not in hotp]
         rng.shuffle(used)
         m = dict(zip(used, pool))
         g = dict(c)
